@@ -18,7 +18,7 @@ RULE = (
     "lists. Non-trivial = the document renders at least two shapes."
 )
 BUDGET = {"quick": 12000, "thorough": 400000}
-TIME_CAP = {"quick": 90, "thorough": 1700}
+TIME_CAP = {"quick": 240, "thorough": 1700}
 ANCHORS = ["SVG._use_structure_parse", "SVG.parse", "Use.property_by_values", "SVG.render", "SVG.property_by_values", "Viewbox.transform", "Rect.render", "_RoundShape.render",
            "SimpleLine.render", "Rect.property_by_values", "_RoundShape.property_by_values", "SimpleLine.property_by_values", "_Polyshape.property_by_values",
            "Transformable.property_by_values", "Group.render", "Shape.reify"]
